@@ -8,10 +8,13 @@ let handle (f : string list) : string =
   match f with
   | ["lex"; cfg; src] -> opt_hex (lex_case (bytes_of_hex cfg) (bytes_of_hex src))
   | ["posok"; cfg; src] -> opt_hex (pos_case (bytes_of_hex cfg) (bytes_of_hex src))
+  | ["lexprog"; src] -> opt_hex (lexprog_case (bytes_of_hex src))
+  | ["posokp"; src] -> opt_hex (posprog_case (bytes_of_hex src))
   | ["cut"; cfg; src] -> opt_hex (cut_case (bytes_of_hex cfg) (bytes_of_hex src))
   | ["tiles"; cfg; src] -> opt_hex (tiles_case (bytes_of_hex cfg) (bytes_of_hex src))
   | ["ctxsim"; src] -> opt_hex (ctx_sim_case (bytes_of_hex src))
   | ["ctxfrag"; src] -> opt_hex (ctx_frag_case (bytes_of_hex src))
+  | ["ctxsim2"; src] -> opt_hex (ctx_sim2_case (bytes_of_hex src))
   | ["devs"; cfg; src] -> opt_hex (lex_devs (bytes_of_hex cfg) (bytes_of_hex src))
   | _ -> "driver-error:unknown-command"
 
